@@ -1,4 +1,5 @@
 import Rare.Proofs.C19Rat
+import Rare.Proofs.C19Complete
 import Rare.Gen.C19
 /-!
 # C19 — math formulas follow the documented precedence; constants equal bound variables
@@ -76,6 +77,73 @@ theorem parse_wellprec (s : Bytes) (t : Tree) (e : Expr α) (h : compile A s = .
 theorem formula_value (s : Bytes) (t : Tree) (e : Expr α) (h : compile A s = .ok (t, e))
     (b : Binding α) : e.eval A b = t.eval A (classify A) b :=
   (compileF_post A _ s t e h).2.ev b
+
+/-- **Every common-order parse is found.**  If the tokens of a formula are the flattening of a
+    well-precedenced tree (groups recursively, literals proper), the formula compiles, to exactly
+    that tree. -/
+theorem parse_complete (s : Bytes) (t : Tree) (htok : tok s = some t.flatten)
+    (hwp : WellPrec Gen.C19.orderOfOps t) (hd : Deep tok t)
+    (hl : t.allLits (fun v => (classify A v).isSome) = true) :
+    ∃ e, compile A s = .ok (t, e) := by
+  rw [gen_tables.1] at hwp
+  exact compileF_complete A _ s t (Nat.lt_succ_self _) htok hwp hd hl
+
+/-- **The common-order parse of a formula is unique**: two well-precedenced trees that flatten to
+    the tokens of the same text are equal (so `parse_wellprec` pins the parse down completely). -/
+theorem wp_unique (s : Bytes) (t₁ t₂ : Tree)
+    (h₁ : tok s = some t₁.flatten) (h₂ : tok s = some t₂.flatten)
+    (w₁ : WellPrec Gen.C19.orderOfOps t₁) (w₂ : WellPrec Gen.C19.orderOfOps t₂)
+    (d₁ : Deep tok t₁) (d₂ : Deep tok t₂)
+    (l₁ : t₁.allLits (fun v => (classify A v).isSome) = true)
+    (l₂ : t₂.allLits (fun v => (classify A v).isSome) = true) : t₁ = t₂ := by
+  obtain ⟨e₁, c₁⟩ := parse_complete A s t₁ h₁ w₁ d₁ l₁
+  obtain ⟨e₂, c₂⟩ := parse_complete A s t₂ h₂ w₂ d₂ l₂
+  rw [c₁] at c₂
+  injection c₂ with c₂
+  injection c₂ with c₂ _
+
+/-- **Constants equal bound variables.**  Take a compiled formula `s` and replace any of its
+    numeric constants by variables (or variables by constants, or by other spellings) such that
+    every replaced literal denotes, under the new binding `b'`, the value the old one denotes under
+    `b` (`LitSubst`).  Then the new text `s'` compiles as well, to the substituted tree, and its value
+    under `b'` is the value of the old formula under `b` – although the simplifier folded different
+    sub-formulas in the two compilations. -/
+theorem simplify_invisible (s s' : Bytes) (t t' : Tree) (e : Expr α) (b b' : Binding α)
+    (hc : compile A s = .ok (t, e)) (hs : LitSubst A b b' t t')
+    (htok : tok s' = some t'.flatten) (hd : Deep tok t') :
+    ∃ e', compile A s' = .ok (t', e') ∧ e'.eval A b' = e.eval A b := by
+  obtain ⟨_, hwp, _, _⟩ := parse_wellprec A s t e hc
+  rw [gen_tables.1] at hwp
+  have hwp' : WellPrec Gen.C19.orderOfOps t' := by rw [gen_tables.1]; exact hs.wp hwp
+  obtain ⟨e', hc'⟩ := parse_complete A s' t' htok hwp' hd hs.lits
+  refine ⟨e', hc', ?_⟩
+  rw [formula_value A s' t' e' hc' b', formula_value A s t e hc b]
+  exact hs.eval_eq.symm
+
+/-- `simplify_invisible` is not vacuous: `2*3+4` and `2*x+4` with x = 3. -/
+example : ∃ e', compile ratArith (ascii "2*x+4") = .ok
+      (.bin false [43] (.bin false [42] (.lit [50]) (.lit [120])) (.lit [52]), e') ∧
+    e'.eval ratArith ⟨fun _ => some 0, fun _ => some 3⟩ = some 10 := by
+  have hc : compile ratArith (ascii "2*3+4") = .ok
+      (.bin false [43] (.bin false [42] (.lit [50]) (.lit [51])) (.lit [52]), .val (some 10)) := by
+    have h : (compile ratArith (ascii "2*3+4")).toOption = some
+        (.bin false [43] (.bin false [42] (.lit [50]) (.lit [51])) (.lit [52]), .val (some 10)) := by
+      decide +kernel
+    cases hx : compile ratArith (ascii "2*3+4") with
+    | error err => rw [hx] at h; cases h
+    | ok r => rw [hx] at h; injection h with h; rw [h]
+  have := simplify_invisible ratArith (ascii "2*3+4") (ascii "2*x+4") _
+    (.bin false [43] (.bin false [42] (.lit [50]) (.lit [120])) (.lit [52])) _
+    ⟨fun _ => some 0, fun _ => some 0⟩ ⟨fun _ => some 0, fun _ => some 3⟩ hc
+    (.bin _ _ _ _ _ _
+      (.bin _ _ _ _ _ _
+        (.lit _ _ (.num (some 2)) (.num (some 2)) (by decide +kernel) (by decide +kernel) rfl)
+        (.lit _ _ (.num (some 3)) (.named [120]) (by decide +kernel) (by decide +kernel) rfl))
+      (.lit _ _ (.num (some 4)) (.num (some 4)) (by decide +kernel) (by decide +kernel) rfl))
+    (by decide +kernel)
+    (.bin _ _ _ _ (.bin _ _ _ _ (.lit _) (.lit _)) (.lit _))
+  obtain ⟨e', h1, h2⟩ := this
+  exact ⟨e', h1, h2⟩
 
 /-- `simplify` alone: replacing an expression by its simplification never changes a value. -/
 theorem simplify_sound (e : Expr α) (b : Binding α) : (simplify A e).eval A b = e.eval A b :=
